@@ -1,2 +1,39 @@
-(* C14 — one Ctrl-C drains the run gracefully; a second one stops it at once (first theorems; see Proofs/IntrProofs). *)
-Require Import LT.Model.Base LT.Model.Sched LT.Model.Intr LT.Gen.SrcParams.
+(* C14 — one Ctrl-C drains the run gracefully; a second one stops it at once. *)
+Require Import LT.Model.Base LT.Model.Sched LT.Model.Intr LT.Proofs.PlanProofs LT.Proofs.IntrProofs LT.Gen.SrcParams.
+
+Definition intr_params_src : iparams :=
+  {| ip := sched_params; ip_gen := gen_mode_src; ip_drain_swallows := drain_swallows_src;
+     ip_stop_swallows := stop_swallows_src; ip_stop_cancels := stop_cancels_src |}.
+
+(* For every graph, worker count, oracle (which workers finish during which wait) and every position of one or two
+   interrupts among the ticks (entries/exits of start_task, submit_task, executor.submit, wait, Future.result,
+   complete_task, remove_results, cancel, stop): once an interrupt has been delivered the run ends with
+   KeyboardInterrupt — never with a normal return, a LabError, or the KeyError of a re-yielded task.  (IOutOfOracle only
+   says that the supplied oracle was too short.)  Holds for the wait()/drain/stop code read from the current source. *)
+Theorem C14_interrupt_raises_KeyboardInterrupt : forall c maxw o k1 k2, NoDup (plan c) ->
+  let '(out, w) := run_intr intr_params_src c maxw o k1 k2 in
+  1 <= fired w -> out = IRaised KI \/ out = IOutOfOracle.
+Proof. exact (fun c maxw o k1 k2 => interrupted_run_raises_KI intr_params_src c maxw o k1 k2 eq_refl eq_refl eq_refl). Qed.
+Print Assumptions C14_interrupt_raises_KeyboardInterrupt.
+
+(* the planner's output is duplicate-free for every well-formed configuration, so the premise is met *)
+Theorem C14_premise : forall c, wf c -> NoDup (plan c).
+Proof. exact (fun c H => proj1 (plan_spec c H)). Qed.
+Print Assumptions C14_premise.
+
+(* each of the three code features the theorem rests on is necessary *)
+Theorem C14_refuted_without :
+  (exists c maxw o k1,
+     let '(out, w) := run_intr {| ip := good_sched; ip_gen := PruneAfter; ip_drain_swallows := true; ip_stop_swallows := true;
+                                  ip_stop_cancels := true |} c maxw o (Some k1) None in
+     1 <= fired w /\ out = IRaised KeyErr) /\
+  (exists c maxw o k1 t,
+     let '(out, w) := run_intr {| ip := good_sched; ip_gen := PopFirst; ip_drain_swallows := false; ip_stop_swallows := true;
+                                  ip_stop_cancels := true |} c maxw o (Some k1) None in
+     1 <= fired w /\ out = IRaised (LabErr t)) /\
+  (exists c maxw o k1 k2 t,
+     let '(out, w) := run_intr {| ip := good_sched; ip_gen := PopFirst; ip_drain_swallows := true; ip_stop_swallows := false;
+                                  ip_stop_cancels := true |} c maxw o (Some k1) (Some k2) in
+     2 <= fired w /\ out = IRaised (LabErr t)).
+Proof. exact (conj prune_after_refuted (conj drain_not_swallowing_refuted stop_not_swallowing_refuted)). Qed.
+Print Assumptions C14_refuted_without.
